@@ -106,21 +106,40 @@ section Blowout
 open TamocV.Model.Blowout
 variable {α O R : Type}
 
-theorem foldl_p (s : State α O R) (ops : List (Op α)) : (ops.foldl apply s).p = final s.p ops := by
+theorem foldl_p (rv : Bool) (s : State α O R) (ops : List (Op α)) : (ops.foldl (apply rv) s).p = final s.p ops := by
   induction ops generalizing s with
   | nil => rfl
   | cons op ops ih => simp only [List.foldl, final]; rw [ih]; rfl
 
-theorem foldl_update_false (s : State α O R) (ops : List (Op α)) (h : ops ≠ [] ∨ s.update = false) :
-    (ops.foldl apply s).update = false := by
+theorem foldl_update_false (rv : Bool) (s : State α O R) (ops : List (Op α)) (h : ops ≠ [] ∨ s.update = false) :
+    (ops.foldl (apply rv) s).update = false := by
   induction ops generalizing s with
   | nil => simpa using h
   | cons op ops ih => simp only [List.foldl]; exact ih _ (Or.inr rfl)
 
-theorem foldl_qType (s : State α O R) (ops : List (Op α)) : (ops.foldl apply s).qType = s.qType := by
+theorem foldl_qType (s : State α O R) (ops : List (Op α)) : (ops.foldl (apply false) s).qType = s.qType := by
   induction ops generalizing s with
   | nil => rfl
-  | cons op ops ih => simp only [List.foldl]; rw [ih]; rfl
+  | cons op ops ih => simp only [List.foldl]; rw [ih]; simp [apply]
+
+theorem onParams_numOil (p : Params α) (op : Op α) (h : op.isNumOil = false) :
+    (op.onParams p).numOil = p.numOil := by
+  cases op <;> simp_all [Op.onParams, Op.isNumOil]
+
+/-- repaired code: the flow-rate convention always matches the current parameters -/
+theorem apply_qType_revisit (s : State α O R) (op : Op α) (h : s.qType = qTypeOf s.p) :
+    (apply true s op).qType = qTypeOf (apply true s op).p := by
+  unfold apply
+  cases hn : op.isNumOil
+  · simp only [Bool.and_false, Bool.false_eq_true, if_false]
+    rw [h]; unfold qTypeOf; rw [onParams_numOil s.p op hn]
+  · simp
+
+theorem foldl_qType_revisit (s : State α O R) (ops : List (Op α)) (h : s.qType = qTypeOf s.p) :
+    (ops.foldl (apply true) s).qType = qTypeOf (ops.foldl (apply true) s).p := by
+  induction ops generalizing s with
+  | nil => exact h
+  | cons op ops ih => simp only [List.foldl]; exact ih _ (apply_qType_revisit s op h)
 
 /-- the cached oil is the oil of the CURRENT parameters (under the object's q_type), or the
     `new_oil` flag is set -/
@@ -132,20 +151,24 @@ theorem onParams_keeps (p : Params α) (op : Op α) (h : op.setsNewOil = false) 
     (op.onParams p).gor = p.gor ∧ (op.onParams p).ca = p.ca := by
   cases op <;> simp_all [Op.onParams, Op.setsNewOil]
 
-theorem apply_oilOK (lib : Lib α O R) (s : State α O R) (op : Op α) (h : OilOK lib s) :
-    OilOK lib (apply s op) := by
+theorem apply_oilOK (rv : Bool) (lib : Lib α O R) (s : State α O R) (op : Op α) (h : OilOK lib s) :
+    OilOK lib (apply rv s op) := by
   unfold OilOK apply at *
   cases hn : op.setsNewOil
   · obtain ⟨h1, h2, h3, h4⟩ := onParams_keeps s.p op hn
     simp only [h1, h2, h3, h4, Bool.or_false]
-    exact h
+    by_cases hc : (rv && op.isNumOil) = true
+    · by_cases hq : qTypeOf (op.onParams s.p) = s.qType
+      · simp only [hc, if_true, hq]; simpa using h
+      · left; simp [hc, hq]
+    · simp only [hc]; simpa using h
   · simp
 
-theorem foldl_oilOK (lib : Lib α O R) (s : State α O R) (ops : List (Op α)) (h : OilOK lib s) :
-    OilOK lib (ops.foldl apply s) := by
+theorem foldl_oilOK (rv : Bool) (lib : Lib α O R) (s : State α O R) (ops : List (Op α)) (h : OilOK lib s) :
+    OilOK lib (ops.foldl (apply rv) s) := by
   induction ops generalizing s with
   | nil => exact h
-  | cons op ops ih => simp only [List.foldl]; exact ih _ (apply_oilOK lib s op h)
+  | cons op ops ih => simp only [List.foldl]; exact ih _ (apply_oilOK rv lib s op h)
 
 theorem construct_oilOK (lib : Lib α O R) (p : Params α) : OilOK lib (construct lib p) := by
   unfold OilOK construct doUpdate; simp
